@@ -267,6 +267,17 @@ def call_method(ex: Any, selfv: V, name: str, args: List[V], kwargs: Dict[str, V
         if name == "endswith":
             yield VBool(z3.SuffixOf(_s(args[0]), selfv.term)), st
             return
+        if name == "strip" and not args:
+            # s == l ++ r ++ t with l, t made of (ASCII) whitespace and r neither starting nor ending with whitespace
+            ws = z3.Union(*[z3.Re(ch) for ch in (" ", "\t", "\n", "\r", "\x0b", "\x0c")])
+            l_, r_, t_ = (z3.String(fresh_name(k)) for k in ("sl", "sr", "st"))
+            one = lambda c: z3.InRe(c, ws)      # noqa: E731
+            st2 = st.assume(selfv.term == z3.Concat(l_, r_, t_), z3.InRe(l_, z3.Star(ws)), z3.InRe(t_, z3.Star(ws)),
+                            z3.Or(z3.And(r_ == z3.StringVal(""), t_ == z3.StringVal("")),
+                                  z3.And(z3.Length(r_) > 0, z3.Not(one(z3.SubString(r_, 0, 1))),
+                                         z3.Not(one(z3.SubString(r_, z3.Length(r_) - 1, 1))))))
+            yield VStr(r_), st2
+            return
         raise Unsupported(f"str.{name}")
     if isinstance(selfv, VSet):
         raise Unsupported(f"set.{name} (in-place set mutation / method)")
